@@ -707,7 +707,7 @@ func (rn *runner) doGRead() {
 		}
 	}
 	if !got {
-		rn.io = TL([]string{TN(5)})
+		rn.io = TL([]string{TN(6)})
 		rn.stats["gossip_read_empty"]++
 	}
 	rn.barrier()
@@ -790,6 +790,7 @@ func (rn *runner) restartMirror(op string) (ok bool) {
 		}
 	}()
 	rn.startMirror()
+	rn.io = TL([]string{TN(9)})
 	return true
 }
 
